@@ -2,6 +2,7 @@ package md5
 
 import (
 	"bytes"
+	"crypto/md5"
 
 	"github.com/henrylee2cn/erpc/v6/xfer"
 )
@@ -76,4 +77,44 @@ func VX_C12_MD5Pipe(args []int) {
 		vxAssert(err != nil || !bytes.Equal(back, orig), "a truncated payload is not accepted as the original")
 	}
 	vxCover("c12.md5pipe")
+}
+
+func init() { vxRegister("VX_C12_MD5Sequence", VX_C12_MD5Sequence) }
+
+// VX_C12_MD5Sequence: frames through the integrity filter one after the other
+// (concrete payloads, real crypto/md5): an honest frame, an altered frame
+// (rejected), then honest frames again - every honest frame is restored, every
+// frame whose checksum is not the md5 of its content is rejected, whatever was
+// processed before. args: rounds
+func VX_C12_MD5Sequence(args []int) {
+	vxPoolMode(1)
+	f, err := xfer.Get('5')
+	vxAssume(err == nil)
+	for r := 0; r < args[0]; r++ {
+		a := []byte("honest payload number " + string(rune('0'+r)))
+		pa, err := f.OnPack(append([]byte{}, a...))
+		vxAssert(err == nil && len(pa) == len(a)+16, "pack appends the checksum")
+		back, err := f.OnUnpack(append([]byte{}, pa...))
+		vxAssert(err == nil && bytes.Equal(back, a), "an honest frame is restored, whatever was processed before")
+		// altered in transit: content changed, checksum kept
+		bad := append([]byte{}, pa...)
+		bad[0] ^= 0x20
+		_, err = f.OnUnpack(bad)
+		vxAssert(err != nil, "a frame whose content was altered is rejected")
+		// a forged frame whose checksum is the md5 of (rejected content || its content)
+		y := []byte("forged-" + string(rune('0'+r)))
+		sum := md5.Sum(append(append([]byte{}, bad[:len(bad)-16]...), y...))
+		forged := append(append([]byte{}, y...), sum[:]...)
+		_, err = f.OnUnpack(forged)
+		vxAssert(err != nil, "a frame whose checksum is not the md5 of its content is rejected, whatever was processed before")
+		// and an honest frame right after the rejected ones
+		b := []byte("after the fault " + string(rune('0'+r)))
+		pb, err := f.OnPack(append([]byte{}, b...))
+		vxAssert(err == nil, "pack after a rejected frame")
+		want := md5.Sum(b)
+		vxAssert(bytes.Equal(pb[len(b):], want[:]), "the checksum written is the md5 of this payload alone")
+		back, err = f.OnUnpack(pb)
+		vxAssert(err == nil && bytes.Equal(back, b), "an honest frame after a rejected one is restored")
+	}
+	vxCover("c12.md5.sequence")
 }
